@@ -1,6 +1,9 @@
 """C03 — FIRST, MID*, LAST protocol.  Theorems: lean/JumanjiModel/Props/C03.lean over the step expressions GENERATED from the source
-(Gen/Protocol.lean).  Search: the Lean predicates ResetOK / StepOK evaluated on every timestep the real environments emit, for all
-catalogue configurations, random in-spec action sequences, including 3 steps after the first LAST."""
+(Gen/Protocol.lean): entry_reset_protocol (the `restart` call as written, with/without shape=, against the declared shape),
+entry_protocol_discount (no hypothesis on the reward), entry_reward_passthrough, entry_protocol; per environment
+Props/ProtocolInstances.lean: <env>_l1_step_protocol : StepOK (step s a).2 for ALL states of all 23 L1 models (Connector's explicit discount
+and every reward length discharged there).  Search: the same Lean predicates ResetOK / StepOK evaluated on every timestep the real
+environments emit, for all catalogue configurations, random in-spec action sequences, including 3 steps after the first LAST."""
 from __future__ import annotations
 
 import numpy as np
